@@ -254,6 +254,9 @@ def q4_once_only_flags(ctx) -> None:
             ctx.violation("Q4", ini[0], "initial work is staged before inferral work")
     # after staging, the label goes to the next level exactly once
     upd = [c for c in _calls(f, "self.next_level.update")] + [c for c in _calls(f, "self.working.append")]
+    # the Counter can also be bumped directly: self.next_level[label] += 1
+    upd += [a for a in walk_local(f) if isinstance(a, ast.AugAssign) and isinstance(a.op, ast.Add) and isinstance(a.target, ast.Subscript)
+            and norm(a.target.value) == "self.next_level"]
     if any(C.stmt_of(c) in f.body for c in upd):
         ctx.ok("Q4", "label is carried over to the next level after its staged work")
     else:
